@@ -470,6 +470,23 @@ def _run(mod, pid, tier, seed, thash, workdir, t0) -> int:
     return rc
 
 
+def blame(e: BaseException) -> str | None:
+    """'file:function' if the innermost repo/harness frame is in the repo."""
+    tb = e.__traceback__
+    last = None
+    while tb is not None:
+        fn = tb.tb_frame.f_code.co_filename
+        if fn.startswith(str(REPO) + os.sep):
+            last = ("repo", os.path.relpath(fn, REPO) + ":"
+                    + tb.tb_frame.f_code.co_name)
+        elif fn.startswith(str(HOME) + os.sep):
+            last = ("harness", fn)
+        tb = tb.tb_next
+    if last is not None and last[0] == "repo":
+        return last[1]
+    return None
+
+
 def shard_main(pid: str, tier: str, spec_file: str, out_file: str) -> int:
     import importlib
     spec = json.loads(Path(spec_file).read_text())
@@ -491,8 +508,24 @@ def shard_main(pid: str, tier: str, spec_file: str, out_file: str) -> int:
     except BaseException as e:  # noqa
         tb = traceback.format_exc()
         sys.stdout.write(tb)
-        ctx.inconclusive_because(
-            f"harness/workload exception {type(e).__name__}: {e}\n"
-            + "\n".join(tb.splitlines()[-12:]))
+        where = blame(e)
+        if where is not None and "replay_case" not in spec:
+            # the code under test raised on an input the workload considers
+            # valid: an observed violation, replayable by re-running the shard
+            ctx.violation(
+                f"unexpected-exception:{type(e).__name__}@{where}",
+                f"{type(e).__name__}: {e} raised inside the repository at "
+                f"{where}\n" + "\n".join(tb.splitlines()[-10:]),
+                {"kind": "__shard__", "idx": spec["idx"],
+                 "spec": {k: v for k, v in spec.items() if k != "idx"}})
+        elif where is not None:
+            ctx.violation(
+                f"unexpected-exception:{type(e).__name__}@{where}",
+                f"{type(e).__name__}: {e} raised inside the repository at "
+                f"{where}", spec["replay_case"])
+        else:
+            ctx.inconclusive_because(
+                f"harness/workload exception {type(e).__name__}: {e}\n"
+                + "\n".join(tb.splitlines()[-12:]))
     Path(out_file).write_text(json.dumps(ctx.result()))
     return 0
